@@ -177,6 +177,20 @@ def props_status(files):
     return out
 
 
+def coqchk_props(files):
+    """Thorough tier: re-check the compiled Props files and everything they depend on with the
+    independent checker. Returns (ok, summary text)."""
+    mods = []
+    for f in files:
+        rel = f if "/" in f else "Props/" + f
+        mods.append("JQ." + rel[:-2].replace("/", "."))
+    rc, log = sh("timeout 3000 coqchk -silent -o -R theories JQ %s 2>&1" % " ".join(mods), cwd=COQ)
+    tail = log[log.find("CONTEXT SUMMARY"):] if "CONTEXT SUMMARY" in log else log[-800:]
+    ok = (rc == 0 and "Axioms: <none>" in tail and "type-in-type: <none>" in tail
+          and "unsafe (co)fixpoints: <none>" in tail and "positivity is assumed: <none>" in tail)
+    return ok, " ".join(tail.split())[:600]
+
+
 ALLOWED = ("ClassicalDedekindReals.sig_forall_dec", "ClassicalDedekindReals.sig_not_dec",
            "FunctionalExtensionality.functional_extensionality_dep", "Classical_Prop.classic",
            "ProofIrrelevance.proof_irrelevance", "Eqdep.Eq_rect_eq.eq_rect_eq", "JMeq.JMeq_eq")
